@@ -190,6 +190,25 @@ reg('C09', 'exploration',
     'below a 0.1% asymmetry (checked by mutation); angular momentum only '
     'for the central-force terms.')
 
+reg('C02', 'translation_validation',
+    'differential execution: the compiled evaluator against a reference '
+    'interpreter that runs the same user-written Python equation methods '
+    'with documented pair-symbol formulas and the Python kernel, group by '
+    'group from the compiled state, on generated and shipped equations; '
+    'generated programs also under gcc ASan+UBSan with the generated module '
+    'instrumented',
+    'Held on every program explored: per quick run 24 generated programs '
+    '(grammar over the documented subset: typed / strided properties, '
+    'constants, attributes, declared locals and matrices, helpers, t/dt, all '
+    '21 pair symbols, loop_all, reduce) bit-exact when arithmetic-only, plus '
+    'one sixth of the 288 shipped classes (all of them over six seeds / in '
+    'thorough) to 512 ulp; classes not comparable are listed by name.',
+    'Neighbour lists come from the real NNPS (C01), queried with the '
+    'reference state at the moment of each query; groups whose Python '
+    'meaning is undefined or non-finite are discarded and counted; float '
+    'properties are only read into double contexts; % only on non-negative '
+    'operands.')
+
 _pending = {
 }
 for _i in range(1, 21):
